@@ -317,6 +317,17 @@ fn site(cx: &mut CaseCtx, s: u64) {
                 t.add_platform(rimt::Platform::new(3, "N".repeat(name_len), Some(ms)));
                 to_vec(&t)
             };
+            // the same device with no mapping list at all (`None` rather than an empty list)
+            let build_none = |name_len: usize| -> Vec<u8> {
+                let mut t = rimt::RIMT::new(H.0, H.1, H.2);
+                t.add_iommu(rimt::Iommu::new(1, None, None, None, None));
+                t.add_platform(rimt::Platform::new(3, "N".repeat(name_len), None));
+                to_vec(&t)
+            };
+            accept(cx, name, "65522-character name, no mapping list (65535 bytes)".into(), || walk_ok(Kind::Rimt, &build_none(65522), 2));
+            for n in [65523usize, 65524, 70000, far(&mut r, 65525, 300_000)] {
+                refuse(cx, name, format!("{}-character name, no mapping list", n), || build_none(n));
+            }
             accept(cx, name, "65522-character name (65535 bytes)".into(), || walk_ok(Kind::Rimt, &build(65522, 0), 2));
             accept(cx, name, "3-character name + 3275 mappings (65516 bytes)".into(), || walk_ok(Kind::Rimt, &build(3, 3275), 2));
             for n in [65523usize, 65524, 70000, far(&mut r, 65525, 300_000)] {
